@@ -27,9 +27,10 @@ int main(void) {
 		}
 	} else token_pool = 0;
 	token_pool_count = c;
-	int op = IN.op;
+	int op = OP;
 	if (op == 0) {                        /* init */
 		token_pool_init();
+		COVER(IN.have_pool); COVER(!IN.have_pool);
 		CHECK(token_pool != 0, "init: a pool exists afterwards");
 		CHECK(token_pool_count == c + 1, "init: use counter incremented");
 		if (IN.have_pool) { CHECK(token_pool->allocated->size == nslabs, "init on an existing pool touches no slab"); if (slab) slab[0] = 1; if (slab0) slab0[0] = 1; }
@@ -42,8 +43,9 @@ int main(void) {
 		CHECK(token_pool->allocated->size >= nslabs && token_pool->allocated->size <= nslabs + 1, "allocation frees nothing, adds at most one slab");
 		if (slab) slab[0] = 1; if (slab0) slab0[0] = 1;         /* earlier slabs (earlier tokens) are still live */
 		if (slab && IN.k < NOBJ) CHECK((char *) t == slab + IN.k * sizeof(token), "bump allocation hands out the next free slot");
-		if (slab && IN.k > 0) CHECK((char *) t >= slab + IN.k * sizeof(token) || (char *) t < slab, "never overlaps a slot handed out before");
-		CHECK((char *) token_pool->next == (char *) t + sizeof(token) && (char *) token_pool->next <= (char *) token_pool->last, "POOLINV after allocation");
+		if (slab && IN.k == NOBJ) CHECK((char *) t == (char *) stack_peek(token_pool->allocated) && (char *) t != slab && token_pool->allocated->size == nslabs + 1, "a full slab is never reused: the token is the first slot of a NEW slab");
+		if (!slab) CHECK((char *) t == (char *) stack_peek(token_pool->allocated) && token_pool->allocated->size == 1, "a drained pool gets a new slab");
+		CHECK((char *) token_pool->next == (char *) t + sizeof(token), "bump pointer advanced by one object");
 		COVER(slab != 0 && IN.k == NOBJ); COVER(slab == 0); COVER(slab != 0 && IN.k == NOBJ - 1);
 	} else if (op == 2) {                 /* drain */
 		ASSUME(c > 0);
@@ -60,11 +62,15 @@ int main(void) {
 	} else ASSUME(0);
 	/* PROTOINV re-established */
 	CHECK(token_pool_count == 0 || token_pool != 0, "PROTOINV: outstanding inits imply a pool");
-	if (token_pool) CHECK((token_pool->next == 0 && token_pool->last == 0 && token_pool->allocated->size == 0) ||
-	                      (token_pool->allocated->size > 0 && (char *) token_pool->next <= (char *) token_pool->last &&
-	                       (char *) token_pool->last == (char *) stack_peek(token_pool->allocated) + sizeof(token) * NOBJ &&
-	                       (char *) token_pool->next >= (char *) stack_peek(token_pool->allocated)), "POOLINV: next/last delimit the free part of the newest slab");
-	COVER(op == 0 && IN.have_pool); COVER(op == 0 && !IN.have_pool); COVER(op == 1); COVER(op == 2 && c == 1); COVER(op == 2 && c > 1); COVER(op == 3);
+	if (token_pool) {
+		if (token_pool->allocated->size == 0) CHECK(token_pool->next == 0 && token_pool->last == 0, "POOLINV: a pool without slabs has next == last == NULL");
+		else {
+			char *top = (char *) stack_peek(token_pool->allocated);
+			size_t used = (size_t) ((char *) token_pool->next - top);
+			CHECK((char *) token_pool->last == top + sizeof(token) * NOBJ, "POOLINV: last is one past the newest slab");
+			CHECK(used <= sizeof(token) * NOBJ && used % sizeof(token) == 0, "POOLINV: next is a slot boundary inside the newest slab");
+		}
+	}
 	COVER(1);
 	return 0;
 }
